@@ -9,7 +9,7 @@ import (
 	"path/filepath"
 	"sort"
 	"strings"
-	"time"
+	"syscall"
 	"unicode/utf8"
 
 	"verifh/lib"
@@ -198,10 +198,6 @@ func (w *work) one(cat string, src []byte) {
 	c.Cur(cat, src)
 	c.Eval()
 	c.Observe("inputs:"+strings.SplitN(cat, ":", 2)[0], 1)
-	if os.Getenv("C17_TIMING") != "" {
-		t0 := time.Now()
-		defer func() { c.Observe("timing_us:"+strings.SplitN(cat, ":", 2)[0], time.Since(t0).Microseconds()) }()
-	}
 	nontrivial := false
 	for e := 0; e < nEntries; e++ {
 		k := runEntry(e, src)
@@ -226,6 +222,9 @@ func (w *work) one(cat string, src []byte) {
 		}
 		c.Observe("ranges_checked", int64(st.ranges))
 		c.Observe("diagnostics_checked", int64(st.diags))
+		if st.evalSkip && st.errFree {
+			c.Observe("error_free_results_not_evaluated_as_explosive", 1)
+		}
 		if st.evaluated > 0 {
 			c.Observe("evaluations_of_error_free_results", int64(st.evaluated))
 		}
@@ -237,7 +236,7 @@ func (w *work) one(cat string, src []byte) {
 			c.Observe("json_blocks_walked", int64(st.jsonBlocks))
 		}
 		// evidence only: never a verdict
-		c.ObserveMax("max:parse_us:"+en+":"+sizeClass(len(src)), st.dur.Microseconds())
+		c.ObserveMax("max:parse_wall_us:"+en+":"+sizeClass(len(src)), st.dur.Microseconds())
 		for _, f := range k.findings {
 			w.sigSeen[f.Sig]++
 			min := src
@@ -318,7 +317,15 @@ func run(c *lib.Ctx) {
 		"Range() of the grouping nodes hclsyntax.Attributes / hclsyntax.Blocks is documented as arbitrary; they are transparent for the child-inside-parent check",
 		"line/column numbers are not judged (the statement speaks of ranges inside the input), only byte offsets",
 		"go-cty and go-textseg behave as the yaotl code expects",
-		"wall time is recorded (max:parse_us:*) but never judged; a hang is the driver's watchdog's business")
+		"wall time is recorded (max:parse_wall_us:*, meaningless on a loaded machine) but never judged; a hang is the driver's watchdog's business",
+		"diagnostics of templates inside JSON strings are position-checked only when the JSON text has no escapes and is valid UTF-8 (json/structure.go documents these positions as approximate otherwise)",
+		"error-free results of inputs with an exponent of 5+ digits or more than 10 '*' bytes are parsed, lexed and walked but not evaluated: evaluation cost is exponential in the input length there (number printing, chained splats), which the statement does not forbid and the monitor cannot interrupt",
+		"the evaluation context's own functions exclude range() and format(), whose result size is an argument")
+	// safety net on a shared machine: a memory explosion in the code under test becomes a
+	// "fatal error: out of memory" of this worker (reported by the driver with the current
+	// input) instead of an OOM kill of somebody else
+	lim := syscall.Rlimit{Cur: 16 << 30, Max: 16 << 30}
+	_ = syscall.Setrlimit(syscall.RLIMIT_AS, &lim)
 	if c.Replay != nil {
 		replay(c)
 		return
@@ -330,13 +337,13 @@ func run(c *lib.Ctx) {
 	w := &work{c: c, g: &gen{r: c.Rng}, corpus: corpus, sigSeen: map[string]int{}}
 	c.Note("corpus_files", len(corpus))
 	r := c.Rng
-	n := c.N(130000, 4800000)
+	n := c.N(130000, 3200000)
 
 	// 1. corpus files as they are
 	idx := 0
 	for _, s := range corpus {
 		if c.Mine(idx) {
-			w.one("corpus:"+s.name, s.data)
+			w.one("corpus", s.data)
 		}
 		idx++
 	}
